@@ -57,6 +57,13 @@ CLAIMS = {
             "calc_real_size of the header at the counter); wrap path writes and publishes the tail marker and re-checks space; marker helpers and "
             "calc_real_size evaluated for all sizes in the bit domain; buffer mod() overloads. FIFO/exactly-once as behaviour is not decided.",
             "static analysis: path enumeration with value numbering + affine forms + bit-provenance evaluation of the size helpers", "DESIGN.md §4 C12"),
+    "C08": ("other", "Path rules over SegmentedQueue: a cell is written only by the segment initialiser, by enqueue's CAS empty->item and by "
+            "do_dequeue's CAS item->item|deleted of a loaded live item published in the caller's guard (a cell never returns to empty); "
+            "success results only on the winning CAS, the counter moved once; a new tail only after the whole permutation was tried, 'empty' only "
+            "for a null head or after a whole scan that saw an empty cell, head removal only after a whole scan saw neither; the segment list "
+            "and head/tail pointers change only under the list lock, remove_head pops only the scanned segment and retires it after unlocking; "
+            "allocation size / initialised count / index range agree on the (power-of-two) quasi factor; HP guard discipline. The quasi-FIFO "
+            "bound and conservation under interleavings are NOT decided.", PATHS, "DESIGN.md §4 C08"),
     "C17": ("other", "Hash-independent element conservation on every CFG path of the relocation code: CuckooSet::resize and relocate insert "
             "each moved element exactly once (known finding D5: the all-probe-sets-full path of resize drops the element), probe-set positions "
             "are used before anything mutates the probe sets, StripedSet::internal_resize moves every element of every old bucket once into "
